@@ -17,6 +17,8 @@ rule-allowed packet that created it and the reload epoch in which it was last va
   under the current rules in its original direction (C19);
   a tracked flow that was never idle for its timeout must still pass (C18 `c18-live-flow-dropped`; with a routine
   cache of period d the guaranteed timeout is the configured one minus the part of the cache tick already elapsed);
+  a packet whose local address is not routable under the certificate in force must not pass, tracked or not
+  (C19 `c19-stale-flow-unroutable-local` when the spec tracks the tuple, else `c17-local-addr-not-routable-passed`);
   a live flow whose original direction is still allowed must not be cut by a reload (C19) — except that the
   65 536th reload does cut it (known finding F16, class `c19-version-wrap-conntrack-reset`).
 -/
@@ -83,8 +85,16 @@ def step (s : St) (args : List String) (impl : String) : St × Out :=
         else dropFlow s.sure p
       let lost := findFlow s.wrapLost p
       let wrapLost := if addrOK && allowed then dropFlow s.wrapLost p else s.wrapLost
+      -- spec (C17 / C19): the node-side address must be one of the node's own addresses or inside an unsafe network
+      -- of the certificate *in force* (`s.my` follows the reloads); a fresh packet of this tuple would be refused,
+      -- so a tracked flow must not carry it either (seeded C19-5: conntrack consulted before the local-address check)
+      let localOK := Spec.Fw.localAddrOK s.my p.localAddr
       let verdict :=
-        if impl == "pass" && addrOK && !specPass then
+        if impl == "pass" && !localOK then
+          match flow with
+          | some f => s!"bad c19-stale-flow-unroutable-local validated-in-epoch={f.epoch} now={s.epoch}"
+          | none => "bad c17-local-addr-not-routable-passed"
+        else if impl == "pass" && addrOK && !specPass then
           match flow with
           | none => "bad c18-untracked-flow-passed"
           | some f =>
@@ -110,7 +120,8 @@ def step (s : St) (args : List String) (impl : String) : St × Out :=
           | none => ":tracked")
         else ":rule"
       let why :=
-        if v == .noRule then
+        if v == .invalidLocal && flow.isSome then ":tracked-unroutable"
+        else if v == .noRule then
           (match flow with
            | some f => if !fresh then ":expired" else if !valid then ":stale" else ""
            | none => "")
